@@ -1,3 +1,4 @@
+import PoaVerif.Facts
 import PoaVerif.Model.Spec
 import PoaVerif.Lemmas.Basic
 import PoaVerif.Witness.D9a
@@ -8,6 +9,12 @@ import PoaVerif.Witness.D9b
 -/
 namespace PoaVerif.Props.C11
 open App
+
+/-- `UpdateBondedPoolPower`: all delegations are read at once and every one of them is summed; the difference to the
+    bonded pool's balance is minted -/
+theorem facts_pool_calls : Generated.updateBondedPoolCalls =
+    ["ZeroInt", "GetAllDelegations", "Add", "RoundInt", "BondDenom", "GetBalance", "NewModuleAddress", "Equal", "GT", "Sub", "NewCoins", "NewCoin",
+     "MintCoins", "SendCoinsFromModuleToModule"] := by decide
 
 theorem d9a_realistic : Realistic genEnv Witness.D9a.g Witness.D9a.blocks
     ⟨⟨⟨[], Witness.D9a.u0⟩, Witness.D9a.s0, Witness.D9a.c0⟩, Witness.D9a.steps, Witness.D9a.ending⟩ := by
